@@ -391,8 +391,89 @@ def normalise_sites(repo_include):
     return sites
 
 
+def ct_checks(ctx, items):
+    """compile-time probes (props/C05/ct_probes.py): every guarded call family as a constant expression, g++ and clang++, the four
+    configurations of check.hpp, custom and default handler.  Expected verdict = the extracted model's, through the driver."""
+    import hashlib
+    import sys
+    from vlib import engine
+    here = Path(__file__).parent
+    sys.path.insert(0, str(here))
+    import ct_probes as ct
+    drv = engine.build_driver(ID)
+    work = engine.HBUILD / ID / "ct"
+    work.mkdir(parents=True, exist_ok=True)
+    vers = "".join(subprocess.run([c, "--version"], capture_output=True, text=True).stdout.split("\n")[0] for c in ct.COMPILERS)
+    key = hashlib.sha256((engine.include_hash() + hashlib.sha256((here / "ct_probes.py").read_bytes()).hexdigest()
+                          + Path(drv).name + vers + "v1").encode()).hexdigest()[:24]
+    cache_path = work / "ct-cache.json"
+    try:
+        cache = json.loads(cache_path.read_text())
+    except Exception:
+        cache = {}
+    if cache.get("key") != key:
+        case_list = ct.cases()
+        lines_in = [f"ct {cfg[0]} {cfg[1]} {cfg[2]} {c}" for cfg in ct.CONFIGS for c in case_list]
+        _, lines, err = engine.run_bin(drv, lines_in)
+        expect, spec, odd = {}, {}, []
+        k = 0
+        for ci, cfg in enumerate(ct.CONFIGS):
+            for i, c in enumerate(case_list):
+                m, sp = engine.split_legs(lines[k]) if k < len(lines) else ("missing", "na")
+                expect[(ci, i)], spec[(cfg[0], cfg[1], cfg[2], c)] = m, sp
+                if m.split(" ")[0] not in ("compiles", "ill-formed", "unchecked"):
+                    odd.append(f"{lines_in[k]} -> {m}")
+                elif sp != "na" and sp != m.split(" ")[0]:
+                    odd.append(f"{lines_in[k]}: model {m} but spec {sp}")
+                k += 1
+        results, info, strays = ct.run(str(engine.REPO / "include"), work, expect, case_list)
+        bad = []
+        for r in results:
+            if not ct.agrees(r["model"], r["observed"]):
+                r["spec"] = spec[(r["cfg"][0], r["cfg"][1], r["cfg"][2], r["case"])]
+                bad.append(r)
+        fam = sorted({c.split()[0] + ((" " + c.split()[3]) if c.split()[0] == "str" else (" " + c.split()[2]) if c.split()[0] in ("vec", "span", "sspan", "sv", "wsv", "bitset", "bit") else "")
+                      for c in case_list})
+        cache = {"key": key, "bad": bad, "odd": odd[:10], "strays": strays[:10], "evaluations": len(results), "cases": len(case_list),
+                 "families": fam, "compilers": info,
+                 "by_verdict": {v: sum(1 for r in results if r["model"].split(" ")[0] == v) for v in ("compiles", "ill-formed", "unchecked")}}
+        cache_path.write_text(json.dumps(cache))
+    for o in cache["odd"][:3]:
+        print(f"MACHINERY-WARNING property={ID}: compile-time probe with an unusable / inconsistent expectation: {o}")
+    for (cxx, cfg, kind, text) in cache["strays"][:3]:
+        items.append({"kind": "violation", "found_input": False,
+                      "payload": {"property": ID, "kind": "compile-time probes: a diagnostic that belongs to no probe (a header no longer compiles in this configuration?)",
+                                  "compiler": cxx, "config": cfg, "unit": kind, "diagnostic": text}})
+    # property failures first (a violation accepted as a constant / a valid call rejected), simplest statement first
+    def is_prop(r):
+        return r["spec"] in ("compiles", "ill-formed") and ct.verdict(r["observed"]) != r["spec"]
+    bad = sorted(cache["bad"], key=lambda r: (not is_prop(r), r["cfg"] != [1, 0, "cust"], len(r["body"]), r["cxx"], r["cfg"]))
+    shown = set()
+    for r in bad:
+        k = (r["cxx"], is_prop(r))
+        if k in shown or len(shown) >= 4:
+            continue
+        shown.add(k)
+        c, s, h = r["cfg"]
+        n_same = sum(1 for x in cache["bad"] if x["cxx"] == r["cxx"])
+        items.append({"kind": "violation", "found_input": is_prop(r),
+                      "payload": {"property": ID, "kind": "compile-time probe: a guarded call as a constant expression",
+                                  "input": f"ct {c} {s} {h} {r['case']}", "compiler": r["cxx"], "flags": ct.config_flags(tuple(r["cfg"])),
+                                  "statement": "constexpr auto p = [] { " + r["body"] + " }();",
+                                  "impl": r["observed"], "model": r["model"], "spec": r["spec"], "diagnostic": r["diag"],
+                                  "disagreeing_probes_this_compiler": n_same,
+                                  "meaning": "compiles = accepted as a constant expression; ill-formed # <header> <check> = rejected because the evaluation reached "
+                                             "etl::assert_handler from this TETL_PRECONDITION; ill-formed-other = rejected for another reason"}})
+    ctx.evidence = dict(getattr(ctx, "evidence", {}), compile_time_probes={
+        "evaluations": cache["evaluations"], "distinct_calls": cache["cases"], "families": cache["families"], "by_expected_verdict": cache["by_verdict"],
+        "configurations": [list(c) for c in ct.CONFIGS], "header_groups_usable_per_compiler": cache["compilers"], "disagreements": len(cache["bad"])})
+    items.append({"kind": "note", "text": f"compile-time probes: {cache['evaluations']} evaluations of {cache['cases']} calls as constant expressions "
+                                          f"({len(cache['families'])} operation families; g++ and clang++; {len(ct.CONFIGS)} configurations), {len(cache['bad'])} disagreements"})
+
+
 def extra_checks(ctx):
-    """site inventory: a removed, added or edited TETL_PRECONDITION is a correspondence break by itself"""
+    """site inventory: a removed, added or edited TETL_PRECONDITION is a correspondence break by itself;
+    compile-time probes: a violation inside a constant expression must be rejected by the check"""
     from vlib import engine
     items = []
     now = normalise_sites(engine.REPO / "include")
@@ -410,4 +491,5 @@ def extra_checks(ctx):
                       "payload": {"kind": "contract-check site inventory no longer matches props/C05/sites.json",
                                   "no_longer_checks": "site inventory (file, expression) of TETL_PRECONDITION",
                                   "removed_or_edited": missing[:20], "new_or_edited": added[:20]}})
+    ct_checks(ctx, items)
     return items
